@@ -89,17 +89,11 @@ theorem rollbackOuts_refines {c : Ctx} {ready : List Wid} (hAR : AllReady c.own 
 
 -- ------------------------------------------------------------------ the TxOut loop (coinbase)
 
-/-- the step facts of the coinbase TxOut loop at position `j`: an owned output is NOT a deposit
-    (the loop body leaves the deposit record in place, see `uncreateCbB`) -/
-def CbOutStep (c : Ctx) (t : Tx) (bm : BlockMeta) (Ys : Nat → Book) (j : Nat) (o : Out) : Prop :=
-  BookEq (Ys (j + 1)) (uncreateB c.own t bm (Ys j) j o) ∧ Loc c.p c.own (Ys j) ∧
-    (∀ w ch, ownerOf c.own o = some (w, ch) →
-      lookupU (Ys j).L t.id j = some ⟨w, t.id, j, bm, t.cb, o, ch⟩ ∧ isDeposit o.cls = false) ∧
-    (ownerOf c.own o = none → (Ys j).credits ⟨t.id, bm, j⟩ = none)
-
+/-- the coinbase TxOut loop: the step facts are those of the ordinary loop (`OutStep`) — the loop body removes the
+    deposit record of an owned staking / binding output together with its credit -/
 theorem rollbackCbOuts_refines {c : Ctx} {ready : List Wid} (hAR : AllReady c.own ready)
     {t : Tx} {bm : BlockMeta} (Ys : Nat → Book)
-    (hstep : ∀ j o, t.outs[j]? = some o → CbOutStep c t bm Ys j o) (os : List Out) :
+    (hstep : ∀ j o, t.outs[j]? = some o → OutStep c t bm Ys j o) (os : List Out) :
     ∀ (j0 : Nat) (s : Store) (bals : Bals) (acc : List (TxId × Nat)), os = t.outs.drop j0 → j0 ≤ t.outs.length →
       AgreeR s (Ys j0) → AgreeBal ready bals (Ys j0) →
       ∃ sb' acc', foldIdxM (rollbackCbOut c t.id bm) os j0 ((s, bals), acc) = .ok (sb', acc') ∧
@@ -194,15 +188,15 @@ theorem rollbackTx_refines {c : Ctx} {ready : List Wid} (hAR : AllReady c.own re
   · have h12 := hS1.trans hS2
     exact ⟨h12.sync, h12.syncedTo, h12.status, h12.balance, h12.blocks⟩
 
-/-- rolling back the record of a coinbase transaction `t` of block `bm` (no TxIn loop; the owned outputs
-    are not deposits, see `CbOutStep`) -/
+/-- rolling back the record of a coinbase transaction `t` of block `bm` (no TxIn loop, nothing
+    returns to the pending set) -/
 theorem rollbackTx_refines_cb {c : Ctx} {ready : List Wid} (hAR : AllReady c.own ready)
     {s : Store} {bals : Bals} {t : Tx} {bm : BlockMeta} {loc : BlkId × Nat} (Ys : Nat → Book)
     (hloc : c.node.txByFileLoc loc = some t) (hcb : t.cb = true)
     (hT : (Ys 0).txrecs (t.id, bm) = none)
     (hR : AgreeR s { Ys 0 with txrecs := upd (Ys 0).txrecs (t.id, bm) (some loc) })
     (hB : AgreeBal ready bals (Ys 0))
-    (houts : ∀ j o, t.outs[j]? = some o → CbOutStep c t bm Ys j o) :
+    (houts : ∀ j o, t.outs[j]? = some o → OutStep c t bm Ys j o) :
     ∃ s' bals' rem, rollbackTx c s bals bm t.id = .ok (s', bals', rem) ∧ AgreeR s' (Ys t.outs.length) ∧
       AgreeBal ready bals' (Ys t.outs.length) ∧ SameRest s s' := by
   have hrec : AMap.get s.txrecs (t.id, bm) = some loc := by
